@@ -591,6 +591,12 @@ theorem fires_E1202 (d : Doc) : fires d .E1202 = violates d .E1202 := by
       simp only [List.any_cons, List.all_cons, Bool.not_or, Bool.not_not, ih]
       rfl
 
+/-- E1203 (S20): the specification applies the rule to relations of EVERY type. The error index says "strict or
+    sequence relation", but `docs/src/concepts/pragmatic/problem/relations.md` ("relation with jobs which have
+    multiple pickups or deliveries places are not yet supported"), the pinned unit test
+    `can_detect_multi_place_time_window_jobs::case03` (RelationType::Any ⇒ E1203) and vrp-core's
+    `create_insertion_context` (asserts one place and one window for the jobs of locks of every order, `Any`
+    included) all agree with the code; only the sentence in the index is too narrow (no code defect). -/
 theorem fires_E1203 (d : Doc) : fires d .E1203 = violates d .E1203 := by
   unfold fires violates
   cases d.relations with
